@@ -66,7 +66,13 @@ def tar_sched_stage(ctx, name, cfg, workers=8, vh_workers=8, sample=1.0, race_re
     tlc = subprocess.Popen(tlc_cmd, cwd=sd, stdout=subprocess.PIPE, stderr=subprocess.STDOUT, env=ENV)
     h = subprocess.Popen(vh_cmd, stdin=tlc.stdout, stdout=subprocess.PIPE, stderr=subprocess.PIPE, env=ENV, text=True)
     tlc.stdout.close()
-    hout, herr = h.communicate()
+    try:
+        hout, herr = h.communicate(timeout=timeout + 300)
+    except subprocess.TimeoutExpired:
+        h.kill()
+        tlc.kill()
+        hout, herr = h.communicate()
+        raise Inconclusive("stage %s: vh tar-sched did not finish within %d s" % (name, timeout + 300))
     tlc.wait()
     shutil.rmtree(meta, ignore_errors=True)
     if not os.path.exists(out):
